@@ -180,7 +180,9 @@ fn c18_round(ctx: &Ctx, out: &mut Out, rng: &mut Rng, k: u64) {
     // by such an error, so every request must still be answered exactly once.
     let fshim = ctx.bins.join("faultshim.so");
     if k % 9 == 4 && fshim.exists() && std::env::var("RTVERIF_WRAP_SERVER").is_err() && ctx.mode.is_empty() {
-        let every = rng.range(3, 40);
+        let every = rng.range(3, 20);
+        // (a receive error costs nothing when every batch holds one request)
+        cfg.batch_size = Some(*rng.pick(&[8u32, 64]));
         cfg.extra_env = vec![("LD_PRELOAD".into(), fshim.display().to_string()), ("RTVERIF_FAULT_RECVFROM_EVERY".into(), every.to_string())];
         out.obs("rounds_with_injected_receive_errors", 1);
     }
@@ -696,6 +698,11 @@ fn c19_run_phase(ctx: &Ctx, out: &mut Out, rng: &mut Rng, k: u64, force: Option<
     let mut cfg = SrvCfg::new(0, &seed);
     cfg.num_workers = Some(nworkers);
     cfg.batch_size = Some(if rng.chance(1, 2) { *rng.pick(&[1u32, 64]) } else { rng.range(1, 64) as u32 });
+    if phase == Phase::Flood && rng.chance(1, 2) {
+        // small batches that are not powers of two: one signature per handful of requests makes the
+        // worker slow enough for any sender to keep its queue non-empty, whatever the machine
+        cfg.batch_size = Some(*rng.pick(&[3u32, 5, 6, 7]));
+    }
     if stats_on {
         cfg.client_stats = Some("on".into());
         let d = ctx.scratch.join("persist19");
@@ -817,7 +824,9 @@ fn c19_run_phase(ctx: &Ctx, out: &mut Out, rng: &mut Rng, k: u64, force: Option<
             }
         }
         Phase::Flood => {
-            let nsend = rng.range(2, 12) as usize;
+            // enough senders to keep the receive queue of a worker non-empty: all of them hit the
+            // single worker of a one-worker server; with more workers the flows spread by source port
+            let nsend = if nworkers == 1 { rng.range(8, 14) } else { rng.range(4, 14) } as usize;
             // what the flood is made of: a mix, or only one kind of datagram
             let flood_kind = k % 4;
             out.obs(&format!("flood_kind_{}", ["mixed", "classic-only", "ietf-only", "invalid-only"][flood_kind as usize]), 1);
@@ -895,17 +904,10 @@ fn c19_run_phase(ctx: &Ctx, out: &mut Out, rng: &mut Rng, k: u64, force: Option<
     }
     let t_sig = Instant::now();
     // the load keeps going until the server exits or the bound expires
-    let mut res = sp.wait_exit(Duration::from_secs(10));
-    let mut slow_exit = false;
-    if res.is_none() && sp.all_threads_sleeping() == Some(false) {
-        // still alive after 10 s, but not blocked: some thread is running or waiting for a CPU. On
-        // an overloaded machine that may be an exit in progress; give it until 60 s. Exiting then
-        // is recorded as slow (inconclusive); still being alive is the violation it looks like.
-        if let Some((st, dt)) = sp.wait_exit(Duration::from_secs(50)) {
-            res = Some((st, dt + Duration::from_secs(10)));
-            slow_exit = true;
-        }
-    }
+    // (a server that needs more than 10 s while it is being flooded is the violation this check
+    // exists for: extending the wait "because its threads are busy" would excuse exactly that)
+    let res = sp.wait_exit(Duration::from_secs(10));
+    let slow_exit = false;
     stop.store(true, Ordering::Relaxed);
     drop(accept_conns);
     let mut verified = 0u64;
@@ -989,7 +991,18 @@ pub fn run_c19(ctx: &Ctx, out: &mut Out) {
     if ctx.replay.is_some() {
         out.note("C19 replay re-runs signal runs with the same parameters (the instant cannot be replayed exactly)");
     }
-    // one long-idle run per check in quick (shard 0, before anything else), several in thorough
+    let n = ctx.share(72, 1_080);
+    for i in 0..n {
+        // interleave so that every shard sees every phase/signal/worker combination over time
+        c19_run(ctx, out, &mut rng, i * ctx.nshards + ctx.shard + (ctx.seed % 36));
+        // (the quick tier always completes its two full factorials: detection of changes that
+        // need one particular phase x flood kind must not depend on how busy the machine is)
+        if ctx.thorough && !ctx.time_left() {
+            out.note("run loop cut by wall budget");
+            break;
+        }
+    }
+    // the forced phases (after the regular runs): one long-idle run per check in quick, several in thorough
     if ctx.shard == 0 || (ctx.thorough && ctx.shard < 4) {
         c19_run_phase(ctx, out, &mut rng, 1000 + ctx.shard, Some(Phase::LongIdle));
     }
@@ -1004,15 +1017,6 @@ pub fn run_c19(ctx: &Ctx, out: &mut Out) {
     if (2..5).contains(&ctx.shard) || ctx.thorough {
         for j in 0..(if ctx.thorough { 6 } else { 2 }) {
             c19_run_phase(ctx, out, &mut rng, 3000 + 3 * j + ctx.shard, Some(Phase::AcceptFault));
-        }
-    }
-    let n = ctx.share(72, 1_080);
-    for i in 0..n {
-        // interleave so that every shard sees every phase/signal/worker combination over time
-        c19_run(ctx, out, &mut rng, i * ctx.nshards + ctx.shard + (ctx.seed % 36));
-        if !ctx.time_left() {
-            out.note("run loop cut by wall budget");
-            break;
         }
     }
     out.floor("phase_LongIdle", 1);
